@@ -300,9 +300,14 @@ def _loop_local_names(scope: ast.AST) -> set:
     def walk(n, loops):
         if isinstance(n, SCOPES) and n is not scope:
             # nested scopes: a load there of an outer name counts as a load outside any loop (be conservative)
+            # (names the nested scope binds itself — comprehension targets, parameters — are its own variables)
+            own = {x.id for x in ast.walk(n) if isinstance(x, ast.Name) and isinstance(x.ctx, (ast.Store, ast.Del))} | \
+                  {x.arg for x in ast.walk(n) if isinstance(x, ast.arg)}
             for x in ast.walk(n):
-                if isinstance(x, ast.Name) and isinstance(x.ctx, ast.Load):
+                if isinstance(x, ast.Name) and isinstance(x.ctx, ast.Load) and x.id not in own:
                     loads.setdefault(x.id, []).append(())
+            if isinstance(n, (ast.ListComp, ast.SetComp, ast.DictComp, ast.GeneratorExp)) and n.generators:
+                walk(n.generators[0].iter, loops)   # the first iterable is evaluated in the enclosing scope, where it stands
             return
         if isinstance(n, (ast.For, ast.AsyncFor)):
             tn = {x.id for x in ast.walk(n.target) if isinstance(x, ast.Name)}
